@@ -9,7 +9,9 @@
 //! and key class, relational slab rows through the slab API and through
 //! `RelationalEngine`, embedding slab + entity index through `emb:` puts, graph
 //! data through `GraphEngine` and through the router's `GraphTensor`, blob log
-//! chunks), `Save{format}` steps and bytes-form round trips. In Enumerate mode
+//! chunks), `Save{format}` steps and bytes-form round trips; the store that
+//! receives a `restore_from_bytes` "over" restore is prepared by a generated fill
+//! program of its own (all slabs, same step code as the source). In Enumerate mode
 //! every mutating syscall boundary of every save (open/create of the temp file,
 //! each write, the rename, and "after the rename") and sampled byte offsets
 //! inside every write are each taken as a crash point in the PROCESS-crash
@@ -106,7 +108,21 @@ pub enum Step {
     TEdgeDel { e: u8 },
     Blob { len: u16, u: u32 },
     Save { fmt: Fmt, p: u8 },
-    Bytes { form: BytesForm },
+    /// Bytes-form round trip. For `StoreOver` the receiving store is prepared by
+    /// its own fill program `target` (any fill step kind; Save/Bytes inside are
+    /// no-ops) and is built as `tcfg` says (0 = `TensorStore::new()`, 1 =
+    /// `TensorStore::with_bloom_filter`); `reuse` = receive into the store that
+    /// received the previous `StoreOver` restore of this program (after running
+    /// `target` on it), if there is one.
+    Bytes {
+        form: BytesForm,
+        #[serde(default)]
+        target: Vec<Step>,
+        #[serde(default)]
+        tcfg: u8,
+        #[serde(default)]
+        reuse: bool,
+    },
 }
 
 #[derive(Serialize, Deserialize, Clone, Debug, PartialEq)]
@@ -164,6 +180,9 @@ const TRIAGED: &[&str] = &[
     // F4: the quantising format replaces a bytes value by the string "bytes:<len>"
     "roundtrip/quantising-default/K/value-bytes",
     "roundtrip/quantising-tt/K/value-bytes",
+    // F6: restore_from_bytes into a store built with a Bloom filter leaves the filter
+    // without the restored keys; the store then refuses to read them
+    "roundtrip/restore_from_bytes-over/K/store-get-fails",
 ];
 
 // ---------------------------------------------------------------- generators
@@ -387,7 +406,9 @@ fn engine_row(u: u32) -> HashMap<String, EValue> {
     m
 }
 
-const EDGE_TYPES: &[&str] = &["knows", "owns", "é-rel"];
+/// Edge type names of the router's GraphTensor slab (GraphEngine edges use the
+/// first three). "default" is the name the type registry is born with.
+const EDGE_TYPES: &[&str] = &["knows", "owns", "é-rel", "default", "likes", ""];
 const TNODES: u64 = 24;
 
 // ---------------------------------------------------------------- dumps
@@ -404,10 +425,45 @@ fn col_to_value(c: &ColumnValue) -> TensorValue {
     }
 }
 
+/// marker field of a `K|` dump entry whose key `scan` lists but `TensorStore::get` refuses
+const STORE_GET_FAILS: &str = "<listed-by-scan-but-store-get-fails>";
+
 fn str_data(field: &str, s: String) -> TensorData {
     let mut d = TensorData::new();
     d.set(field, sc(ScalarValue::String(s)));
     d
+}
+
+struct GEdgeView {
+    id: u64,
+    from: u64,
+    to: u64,
+    directed: bool,
+    ty: String,
+}
+
+/// The graph tensor's serialisable state read back field by field: every edge
+/// with its id, endpoints, direction flag and the NAME its type index stands
+/// for in this slab's registry, plus the registry's list of names.
+fn graph_state(r: &SlabRouter) -> (Vec<GEdgeView>, Vec<String>) {
+    let v = serde_json::to_value(r.graph.snapshot()).unwrap_or(Value::Null);
+    let types: Vec<String> =
+        v["edge_types"].as_array().map(|a| a.iter().map(|x| x.as_str().unwrap_or("<not a string>").to_string()).collect()).unwrap_or_default();
+    let mut edges: Vec<GEdgeView> = Vec::new();
+    if let Some(a) = v["edges"].as_array() {
+        for e in a {
+            let idx = e["edge_type_idx"].as_u64().unwrap_or(u64::MAX);
+            edges.push(GEdgeView {
+                id: e["edge_id"].as_u64().unwrap_or(u64::MAX),
+                from: e["from"].as_u64().unwrap_or(u64::MAX),
+                to: e["to"].as_u64().unwrap_or(u64::MAX),
+                directed: e["directed"].as_bool().unwrap_or(false),
+                ty: usize::try_from(idx).ok().and_then(|i| types.get(i)).map(|t| format!("{t:?}")).unwrap_or_else(|| "<index outside the type registry>".to_string()),
+            });
+        }
+    }
+    edges.sort_by_key(|e| e.id);
+    (edges, types)
 }
 
 /// Everything observable in a router through its public reads, in sections:
@@ -474,6 +530,13 @@ fn dump_router(r: &SlabRouter, blob_hashes: &[u64], max_edge: u64) -> Dump {
         }
         out.insert(format!("E|{k}"), d);
     }
+    // embeddings that no key leads to (left behind in the slab) show in the counts
+    if r.index.len() > 0 || r.embeddings.len() > 0 {
+        let mut d = TensorData::new();
+        d.set("index_len", sc(ScalarValue::Int(r.index.len() as i64)));
+        d.set("slab_len", sc(ScalarValue::Int(r.embeddings.len() as i64)));
+        out.insert("E|count".into(), d);
+    }
     // G
     if r.graph.edge_count() > 0 {
         let mut meta = TensorData::new();
@@ -497,7 +560,7 @@ fn dump_router(r: &SlabRouter, blob_hashes: &[u64], max_edge: u64) -> Dump {
                 d.set(format!("out{j:03}.edge"), sc(ScalarValue::Int(*e as i64)));
                 let tys: Vec<&str> =
                     EDGE_TYPES.iter().copied().filter(|t| r.graph.edge_exists(node, EntityId::new(*to), Some(t))).collect();
-                d.set(format!("out{j:03}.types"), sc(ScalarValue::String(tys.join(","))));
+                d.set(format!("out{j:03}.types"), sc(ScalarValue::String(format!("{tys:?}"))));
             }
             for (j, (from, e)) in i.iter().enumerate() {
                 d.set(format!("in{j:03}.from"), sc(ScalarValue::Int(*from as i64)));
@@ -510,6 +573,20 @@ fn dump_router(r: &SlabRouter, blob_hashes: &[u64], max_edge: u64) -> Dump {
         if let Some(d) = r.graph.get_edge_data(EdgeId::new(e)) {
             out.insert(format!("G|data|{e:04}"), d);
         }
+    }
+    // per edge id: endpoints, direction and TYPE NAME. The public reads above
+    // give types only per (from, to) pair and never the direction flag; the
+    // slab's own serialisable state (what its next snapshot would carry) names
+    // both per edge. Taken last: `snapshot()` merges the pending log, which the
+    // save / to_bytes that follows every dump of a live store does anyway.
+    let (edges, _types) = graph_state(r);
+    for e in edges {
+        let mut d = TensorData::new();
+        d.set("from", sc(ScalarValue::Int(e.from as i64)));
+        d.set("to", sc(ScalarValue::Int(e.to as i64)));
+        d.set("directed", sc(ScalarValue::Bool(e.directed)));
+        d.set("type", sc(ScalarValue::String(e.ty)));
+        out.insert(format!("G|edge|{:06}", e.id), d);
     }
     // B
     for h in blob_hashes {
@@ -694,6 +771,13 @@ fn first_diff(exp: &Dump, got: &Dump, e: Eqv) -> Option<Diff> {
                 None => {
                     return Some(Diff { section, kind: "missing".into(), detail: format!("{k}: expected {} got <absent>", short(&canon_data(v))) })
                 },
+                Some(g) if g.get(STORE_GET_FAILS).is_some() && v.get(STORE_GET_FAILS).is_none() => {
+                    return Some(Diff {
+                        section,
+                        kind: "store-get-fails".into(),
+                        detail: format!("{k}: scan() lists the key but reading it through the store fails: {}", short(&canon_data(g))),
+                    })
+                },
                 Some(g) => {
                     let mut names: Vec<&String> = v.keys().collect();
                     names.sort();
@@ -769,10 +853,16 @@ struct Trial<'a> {
     gr: Option<GraphEngine>,
     blob_hashes: Vec<u64>,
     tedges: Vec<u64>,
+    /// graph-tensor edge type names in the order this store first saw them (the
+    /// order of its type registry; used for a coverage probe only)
+    type_order: Vec<&'static str>,
     n_gnodes: u64,
     n_gedges: u64,
     uses_rel: bool,
     uses_graph: bool,
+    /// the store that received the last `StoreOver` restore, with the fill
+    /// bookkeeping of the programs that ran on it
+    receiver: Option<(TensorStore, SideBook)>,
     /// path -> what loading the last completed snapshot at that path yields
     saved: BTreeMap<String, Dump>,
     pending: Vec<Violation>,
@@ -784,6 +874,26 @@ struct Trial<'a> {
 enum Outcome {
     Ok,
     Bad(Violation),
+}
+
+/// fill bookkeeping of a store other than the live one
+#[derive(Default)]
+struct SideBook {
+    tedges: Vec<u64>,
+    type_order: Vec<&'static str>,
+    n_gnodes: u64,
+    n_gedges: u64,
+}
+
+fn all_steps(steps: &[Step]) -> Vec<&Step> {
+    let mut v = Vec::new();
+    for s in steps {
+        v.push(s);
+        if let Step::Bytes { target, .. } = s {
+            v.extend(all_steps(target));
+        }
+    }
+    v
 }
 
 /// per Save step of the dry run: its syscalls and the clean-load reference
@@ -800,8 +910,9 @@ impl<'a> Trial<'a> {
         let dir = format!("{root}/t{tag}");
         let _ = std::fs::create_dir_all(format!("{dir}/ref"));
         let live = if case.cfg == 1 { Live::Router(Box::new(small_router())) } else { Live::Store(TensorStore::new()) };
-        let uses_rel = case.steps.iter().any(|s| matches!(s, Step::Table { engine: true, .. }));
-        let uses_graph = case.steps.iter().any(|s| matches!(s, Step::GNode { .. }));
+        // (the fill programs of receiving stores count: what they leave behind must be looked for)
+        let uses_rel = all_steps(&case.steps).iter().any(|s| matches!(s, Step::Table { engine: true, .. }));
+        let uses_graph = all_steps(&case.steps).iter().any(|s| matches!(s, Step::GNode { .. }));
         Trial {
             ctx,
             case,
@@ -811,10 +922,12 @@ impl<'a> Trial<'a> {
             gr: None,
             blob_hashes: Vec::new(),
             tedges: Vec::new(),
+            type_order: Vec::new(),
             n_gnodes: 0,
             n_gedges: 0,
             uses_rel,
             uses_graph,
+            receiver: None,
             saved: BTreeMap::new(),
             pending: Vec::new(),
             observations: Vec::new(),
@@ -843,6 +956,23 @@ impl<'a> Trial<'a> {
     fn full_dump_of(&self, live: &Live) -> Dump {
         let mut d = dump_router(live.router(), &self.blob_hashes, 48);
         if let Some(s) = live.store() {
+            if s.has_bloom_filter() {
+                // a store built with a Bloom filter answers `get`/`exists` through it:
+                // every key the store lists must also be readable through the store
+                for (k, v) in d.range_mut("K|".to_string()..).take_while(|(k, _)| k.starts_with("K|")) {
+                    let key = &k[2..];
+                    match s.get(key) {
+                        Ok(g) => {
+                            if !s.exists(key) {
+                                *v = str_data(STORE_GET_FAILS, "exists() is false for a key that scan() lists and get() returns".into());
+                            } else if canon_data(&g) != canon_data(v) {
+                                *v = g;
+                            }
+                        },
+                        Err(e) => *v = str_data(STORE_GET_FAILS, format!("{e}")),
+                    }
+                }
+            }
             if self.uses_rel || self.uses_graph {
                 // fixed id ranges: what is probed must not depend on when the dump is taken
                 dump_engines(s, self.uses_rel, self.uses_graph, 24, 24, &mut d);
@@ -1087,8 +1217,12 @@ impl<'a> Trial<'a> {
                 }
             },
             Step::TEdge { from, to, ty, directed, u } => {
+                let name = EDGE_TYPES[*ty as usize % EDGE_TYPES.len()];
+                if name != "default" && !self.type_order.contains(&name) {
+                    self.type_order.push(name);
+                }
                 let g = &self.live.router().graph;
-                let e = g.add_edge(EntityId::new(u64::from(*from) % TNODES), EntityId::new(u64::from(*to) % TNODES), EDGE_TYPES[*ty as usize % 3], *directed);
+                let e = g.add_edge(EntityId::new(u64::from(*from) % TNODES), EntityId::new(u64::from(*to) % TNODES), name, *directed);
                 if u % 3 != 0 {
                     g.set_edge_data(e, value_for((*u % 10) as u8, *u));
                 }
@@ -1113,7 +1247,31 @@ impl<'a> Trial<'a> {
         }
     }
 
-    fn exec_bytes(&mut self, i: usize, form: BytesForm) {
+    /// Runs a fill program on a store other than the live one, through the same
+    /// step code (engines attached to that store for the duration).
+    fn fill_other(&mut self, store: &TensorStore, steps: &[Step], book: &mut SideBook) {
+        let live = std::mem::replace(&mut self.live, Live::Store(store.clone()));
+        let rel = self.rel.take();
+        let gr = self.gr.take();
+        std::mem::swap(&mut self.tedges, &mut book.tedges);
+        std::mem::swap(&mut self.type_order, &mut book.type_order);
+        std::mem::swap(&mut self.n_gnodes, &mut book.n_gnodes);
+        std::mem::swap(&mut self.n_gedges, &mut book.n_gedges);
+        for s in steps {
+            self.exec_fill(s);
+        }
+        std::mem::swap(&mut self.tedges, &mut book.tedges);
+        std::mem::swap(&mut self.type_order, &mut book.type_order);
+        std::mem::swap(&mut self.n_gnodes, &mut book.n_gnodes);
+        std::mem::swap(&mut self.n_gedges, &mut book.n_gedges);
+        self.live = live;
+        self.rel = rel;
+        self.gr = gr;
+    }
+
+    fn exec_bytes(&mut self, i: usize, step: &Step) {
+        let Step::Bytes { form, target: program, tcfg, reuse } = step else { return };
+        let form = *form;
         let what = format!("step {i} ({form:?})");
         let original = self.full_dump();
         match form {
@@ -1146,20 +1304,79 @@ impl<'a> Trial<'a> {
                         return;
                     },
                 };
-                let target = TensorStore::new();
+                let (target, mut book) = match (form == BytesForm::StoreOver && *reuse, self.receiver.take()) {
+                    (true, Some(r)) => {
+                        self.ctx.probe("restore_into_earlier_receiver");
+                        r
+                    },
+                    _ => {
+                        let t = if form == BytesForm::StoreOver && *tcfg % 2 == 1 { TensorStore::with_bloom_filter(1000, 0.01) } else { TensorStore::new() };
+                        (t, SideBook::default())
+                    },
+                };
                 if form == BytesForm::StoreOver {
+                    // the receiving store has a life of its own before the restore: other
+                    // entries under the same and other keys, other tables and rows, other
+                    // graph-tensor edges (types first seen in another order, deleted
+                    // edges), blob chunks, embeddings and deleted entities
                     let _ = target.put("plain:stale", value_for(4, 1));
                     let _ = target.put("emb:stale", value_for(10, 2));
                     let _ = target.router().relations.create_table("stale", slab_schema(2));
                     let _ = target.router().relations.insert("stale", slab_row(2, 4));
+                    let program = program.clone();
+                    self.fill_other(&target, &program, &mut book);
+                    let r = target.router();
+                    // (public reads only: the receiving store must meet the restore in the
+                    // state its program left it in - pending log and deleted set unmerged)
+                    let src_edges = self.live.router().graph.edge_count();
+                    let rcv_edges = r.graph.edge_count();
+                    let ents = (r.index.len(), r.index.total_entries());
+                    self.ctx.event(&format!(
+                        "{what}: receiving store before the restore: {} keys, {} tables, {} graph-tensor edges (types {:?}), {} blob chunks, {} entities ({} deleted), bloom filter {}",
+                        r.scan("").len(),
+                        r.relations.table_count(),
+                        rcv_edges,
+                        book.type_order,
+                        r.blobs.chunk_count(),
+                        ents.0,
+                        ents.1 - ents.0.min(ents.1),
+                        target.has_bloom_filter()
+                    ));
+                    let has = |sec: &str| original.keys().any(|k| k.starts_with(sec));
+                    if rcv_edges > 0 && src_edges > 0 {
+                        self.ctx.probe("restore_over_graph_edges");
+                    }
+                    if src_edges > 0 && self.type_order.iter().zip(book.type_order.iter()).any(|(a, b)| a != b) {
+                        self.ctx.probe("restore_over_other_edge_type_order");
+                    }
+                    if r.graph.pending_count() > 0 && r.graph.edge_count() < r.graph.pending_count() && src_edges > 0 {
+                        self.ctx.probe("restore_over_unmerged_deleted_edges");
+                    }
+                    if r.relations.table_count() > 1 && has("T|") {
+                        self.ctx.probe("restore_over_relational_tables");
+                    }
+                    if r.blobs.chunk_count() > 0 && has("B|") {
+                        self.ctx.probe("restore_over_blob_chunks");
+                    }
+                    if ents.1 > ents.0 && has("E|") {
+                        self.ctx.probe("restore_over_deleted_entities");
+                    }
+                    if target.has_bloom_filter() {
+                        self.ctx.probe("restore_into_bloom_filter_store");
+                    }
                 }
                 match target.restore_from_bytes(&bytes) {
                     Ok(()) => {
-                        let l = Live::Store(target);
+                        let l = Live::Store(target.clone());
                         let loaded = self.full_dump_of(&l);
                         self.check_roundtrip(&what, form.name(), &original, &loaded, Eqv::Exact);
                     },
                     Err(e) => self.pend(format!("roundtrip/{}/load-failed", form.name()), format!("{what}: restore_from_bytes of snapshot_bytes output failed: {e}")),
+                }
+                if form == BytesForm::StoreOver {
+                    // its type registry is the source's now
+                    book.type_order = self.type_order.clone();
+                    self.receiver = Some((target, book));
                 }
             },
         }
@@ -1300,6 +1517,7 @@ impl<'a> Trial<'a> {
         // the process is gone: its objects with it
         self.rel = None;
         self.gr = None;
+        self.receiver = None;
         self.live = Live::Router(Box::new(SlabRouter::new()));
         let power_loss = self.case.observe == 1;
         let seed_cut = c.nth.wrapping_mul(31).wrapping_add(c.bytes.unwrap_or(0) as u64);
@@ -1490,10 +1708,13 @@ impl<'a> Trial<'a> {
                         return Outcome::Bad(v);
                     }
                 },
-                Step::Bytes { form } => {
-                    // evaluated where the result is not already known from the dry run
-                    if refs.is_none() || deviated {
-                        self.exec_bytes(i, *form);
+                Step::Bytes { .. } => {
+                    // evaluated where the result is not already known from the dry run: after a
+                    // crash the program continues on one of two states (previous or new
+                    // snapshot), whatever the byte offset of the crash inside a write was, so
+                    // of an enumeration's trials those at syscall boundaries evaluate it
+                    if refs.is_none() || (deviated && crashes.iter().all(|c| c.bytes.is_none())) {
+                        self.exec_bytes(i, step);
                     }
                 },
                 other => self.exec_fill(other),
@@ -1539,6 +1760,79 @@ fn sample_offsets(len: usize, want: usize) -> Vec<usize> {
     v
 }
 
+/// One fill step; `r` in 0..79 selects the kind.
+fn gen_fill(rng: &mut Rng, r: u64, cfg: u8, nkeys: u64, nu: &mut dyn FnMut() -> u32) -> Step {
+    let nclass = KEY_CLASSES.len() as u64;
+    let t = rng.below(3) as u8;
+    let engine = cfg == 0 && rng.chance(1, 3);
+    match r {
+        0..=20 => Step::Put { class: rng.below(nclass) as u8, idx: rng.below(nkeys) as u16, kind: rng.below(20) as u8, u: nu() },
+        21..=24 => Step::PutMany { class: rng.below(nclass) as u8, start: rng.below(4) as u16 * 10, n: rng.range(2, 30) as u16, u: nu() },
+        25..=29 => Step::Del { class: rng.below(nclass) as u8, idx: rng.below(nkeys) as u16 },
+        30..=35 => Step::Table { t, engine },
+        36..=43 => Step::Rows { t, engine, n: rng.range(1, 12) as u16, u: nu() },
+        44..=46 => Step::RowDel { t, engine, row: rng.below(8) as u16 },
+        47..=49 => Step::RowUpd { t, row: rng.below(8) as u16, u: nu() },
+        50..=51 => Step::Index { t, engine },
+        52..=59 => Step::Emb { idx: rng.below(nkeys) as u16, shape: rng.below(8) as u8, u: nu() },
+        60..=62 => Step::GNode { u: nu() },
+        63..=64 => Step::GEdge { a: rng.below(6) as u8, b: rng.below(6) as u8, u: nu() },
+        65..=71 => Step::TEdge {
+            from: rng.below(8) as u8,
+            to: rng.below(8) as u8,
+            ty: rng.below(EDGE_TYPES.len() as u64) as u8,
+            directed: rng.chance(2, 3),
+            u: nu(),
+        },
+        72..=74 => Step::TEdgeDel { e: rng.below(8) as u8 },
+        _ => Step::Blob { len: if rng.chance(1, 4) { rng.range(200, 700) as u16 } else { rng.below(40) as u16 }, u: nu() },
+    }
+}
+
+/// A bytes-form step placed after `before`. The receiving store of a
+/// `StoreOver` restore gets a fill program of its own, drawn like the source's:
+/// a few steps of any kind, and - so that what is restored lands on used
+/// ground - more steps on every slab the source program has used so far
+/// (with other values, row sets, edge types and orders, deletions).
+fn gen_bytes(rng: &mut Rng, before: &[Step], nkeys: u64, nu: &mut dyn FnMut() -> u32) -> Step {
+    let form = match rng.below(4) {
+        0 => BytesForm::Router,
+        1 => BytesForm::StoreFresh,
+        _ => BytesForm::StoreOver,
+    };
+    if form != BytesForm::StoreOver {
+        return Step::Bytes { form, target: Vec::new(), tcfg: 0, reuse: false };
+    }
+    let mut target: Vec<Step> = Vec::new();
+    for _ in 0..rng.range(0, 5) {
+        let r = rng.below(79);
+        target.push(gen_fill(rng, r, 0, nkeys, nu));
+    }
+    // slab kinds of the source: (first r, last r) of the fill kinds that touch them
+    let used: [(bool, &[u64]); 6] = [
+        (before.iter().any(|s| matches!(s, Step::TEdge { .. })), &[65, 66, 67, 72]),
+        (before.iter().any(|s| matches!(s, Step::Table { .. } | Step::Rows { .. })), &[30, 36, 37, 44, 47, 50]),
+        (before.iter().any(|s| matches!(s, Step::Emb { .. })), &[52, 53, 25]),
+        (before.iter().any(|s| matches!(s, Step::Blob { .. })), &[75, 76]),
+        (before.iter().any(|s| matches!(s, Step::GNode { .. })), &[60, 61, 63]),
+        (before.iter().any(|s| matches!(s, Step::Put { .. } | Step::PutMany { .. })), &[0, 1, 21, 25]),
+    ];
+    for (on, kinds) in used {
+        if on && rng.chance(3, 4) {
+            let n = rng.range(1, kinds.len() as u64) as usize;
+            for r in &kinds[..n] {
+                let mut st = gen_fill(rng, *r, 0, nkeys, nu);
+                // deletions of the receiving program aim at the embedding keys when the source has embeddings
+                if let (Step::Del { class, .. }, 52) = (&mut st, kinds[0]) {
+                    *class = 1;
+                }
+                target.push(st);
+            }
+        }
+    }
+    Step::Bytes { form, target, tcfg: u8::from(rng.chance(1, 6)), reuse: rng.chance(1, 3) }
+}
+
 impl Scenario for C07 {
     type Case = Case;
     fn id(&self) -> &'static str {
@@ -1550,7 +1844,7 @@ impl Scenario for C07 {
     fn runs(&self, tier: Tier) -> u64 {
         match tier {
             Tier::Quick => 300,
-            Tier::Thorough => 4000,
+            Tier::Thorough => 8000,
         }
     }
 
@@ -1587,24 +1881,9 @@ impl Scenario for C07 {
         let nkeys = rng.range(1, 6);
         for _ in 0..n_steps {
             let r = rng.below(100);
-            let t = rng.below(3) as u8;
-            let engine = cfg == 0 && rng.chance(1, 3);
             let s = match r {
-                0..=24 => Step::Put { class: rng.below(nclass) as u8, idx: rng.below(nkeys) as u16, kind: rng.below(20) as u8, u: nu() },
-                25..=28 => Step::PutMany { class: rng.below(nclass) as u8, start: rng.below(4) as u16 * 10, n: rng.range(2, 30) as u16, u: nu() },
-                29..=33 => Step::Del { class: rng.below(nclass) as u8, idx: rng.below(nkeys) as u16 },
-                34..=39 => Step::Table { t, engine },
-                40..=47 => Step::Rows { t, engine, n: rng.range(1, 12) as u16, u: nu() },
-                48..=50 => Step::RowDel { t, engine, row: rng.below(8) as u16 },
-                51..=53 => Step::RowUpd { t, row: rng.below(8) as u16, u: nu() },
-                54..=55 => Step::Index { t, engine },
-                56..=63 => Step::Emb { idx: rng.below(nkeys) as u16, shape: rng.below(8) as u8, u: nu() },
-                64..=66 => Step::GNode { u: nu() },
-                67..=68 => Step::GEdge { a: rng.below(6) as u8, b: rng.below(6) as u8, u: nu() },
-                69..=72 => Step::TEdge { from: rng.below(8) as u8, to: rng.below(8) as u8, ty: rng.below(3) as u8, directed: rng.chance(2, 3), u: nu() },
-                73..=74 => Step::TEdgeDel { e: rng.below(8) as u8 },
-                75..=78 => Step::Blob { len: if rng.chance(1, 4) { rng.range(200, 700) as u16 } else { rng.below(40) as u16 }, u: nu() },
-                79..=93 => {
+                0..=78 => gen_fill(rng, r, cfg, nkeys, &mut nu),
+                79..=92 => {
                     let fmt = match rng.below(8) {
                         0..=3 => Fmt::Default,
                         4..=5 => Fmt::Uncompressed,
@@ -1613,15 +1892,16 @@ impl Scenario for C07 {
                     };
                     Step::Save { fmt, p: rng.below(2) as u8 }
                 },
-                _ => Step::Bytes {
-                    form: match rng.below(3) {
-                        0 => BytesForm::Router,
-                        1 => BytesForm::StoreFresh,
-                        _ => BytesForm::StoreOver,
-                    },
-                },
+                _ => gen_bytes(rng, &steps, nkeys, &mut nu),
             };
             steps.push(s);
+        }
+        if cfg == 0 {
+            // every store-level program has at least one bytes-form round trip, somewhere
+            // in its second half
+            let at = rng.range((steps.len() / 2) as u64, steps.len() as u64) as usize;
+            let b = gen_bytes(rng, &steps[..at], nkeys, &mut nu);
+            steps.insert(at, b);
         }
         // every program ends by saving over something it saved before: the path of one
         // of its earlier saves (so that a complete previous snapshot exists there), in
@@ -1670,7 +1950,23 @@ impl Scenario for C07 {
         for s in &case.steps {
             ctx.fp(match s {
                 Step::Save { fmt, .. } => fmt.name(),
-                Step::Bytes { form } => form.name(),
+                Step::Bytes { form, target, tcfg, reuse } => {
+                    if *form == BytesForm::StoreOver {
+                        let kinds: Vec<&str> = target
+                            .iter()
+                            .map(|t| match t {
+                                Step::Table { .. } | Step::Rows { .. } | Step::RowDel { .. } | Step::RowUpd { .. } | Step::Index { .. } => "rel",
+                                Step::Emb { .. } => "emb",
+                                Step::TEdge { .. } | Step::TEdgeDel { .. } => "tedge",
+                                Step::Blob { .. } => "blob",
+                                Step::GNode { .. } | Step::GEdge { .. } => "gr",
+                                _ => "fill",
+                            })
+                            .collect();
+                        ctx.fp(&format!("receiver:{tcfg}:{reuse}:{kinds:?}"));
+                    }
+                    form.name()
+                },
                 Step::Table { .. } | Step::Rows { .. } => "rel",
                 Step::Emb { .. } => "emb",
                 Step::TEdge { .. } => "tedge",
@@ -1815,8 +2111,19 @@ impl Scenario for C07 {
                 Step::Rows { t, engine, n, u } if *n > 1 => Some(Step::Rows { t: *t, engine: *engine, n: n / 2, u: *u }),
                 Step::Put { class, idx, kind, u } if *kind != 2 => Some(Step::Put { class: *class, idx: *idx, kind: 2, u: *u }),
                 Step::Blob { len, u } if *len > 0 => Some(Step::Blob { len: 0, u: *u }),
+                Step::Bytes { form, target, tcfg, reuse } if *reuse || *tcfg != 0 => {
+                    Some(Step::Bytes { form: *form, target: target.clone(), tcfg: if *reuse { *tcfg } else { 0 }, reuse: false })
+                },
                 _ => None,
             };
+            // the fill program of a receiving store shrinks like the main one
+            if let Step::Bytes { form, target, tcfg, reuse } = s {
+                for t in drop_chunks(target) {
+                    let mut c = case.clone();
+                    c.steps[i] = Step::Bytes { form: *form, target: t, tcfg: *tcfg, reuse: *reuse };
+                    v.push(c);
+                }
+            }
             if let Some(s2) = simpler {
                 let mut c = case.clone();
                 c.steps[i] = s2;
@@ -1838,11 +2145,17 @@ impl Scenario for C07 {
             "vector_above_threshold",
             "loaded_complete_previous",
             "loaded_complete_new",
+            "restore_over_graph_edges",
+            "restore_over_other_edge_type_order",
+            "restore_over_unmerged_deleted_edges",
+            "restore_over_relational_tables",
+            "restore_over_blob_chunks",
+            "restore_over_deleted_entities",
         ]
     }
 
     fn rule(&self) -> String {
-        "A case is a generated program of fill steps (key-addressed puts/deletes over 20 value kinds and 11 key classes, bulk puts up to 3500 keys, relational slab tables/rows/updates/deletes/indexes through the slab API and through RelationalEngine, full-dimension embeddings on emb: keys, GraphEngine nodes/edges, GraphTensor slab edges with edge data, blob-log chunks), Save{zstd | uncompressed | quantising(default|tensor-train)} steps to two v3 paths and one quantising path, and bytes-form round trips (SlabRouter::to_bytes/from_bytes, snapshot_bytes/restore_from_bytes into a new and into a non-empty store); one in seven cases uses a bare SlabRouter with embedding_dim 8. Enumerate mode: a dry run loads every saved snapshot back and compares it with the live store (round-trip clause), then every mutating syscall boundary of every save (temp-file create/truncate, header write, body write, rename, and the point right after the rename) and sampled byte offsets inside every write are each taken as a process-crash point (inner_enumerated_points counts these executions), each followed by load, comparison with the complete previous and complete new snapshot, a second save over the leftover temp file, load, and the rest of the program on the loaded store. Chain mode: 1-2 seeded crashes in one execution. Non-trivial: at least one save/load pair was compared or a crash fired. Distinct: hash of (configuration, step-kind sequence, crash sites).".into()
+        "A case is a generated program of fill steps (key-addressed puts/deletes over 20 value kinds and 11 key classes, bulk puts up to 3500 keys, relational slab tables/rows/updates/deletes/indexes through the slab API and through RelationalEngine, full-dimension embeddings on emb: keys, GraphEngine nodes/edges, GraphTensor slab edges with edge data, blob-log chunks), Save{zstd | uncompressed | quantising(default|tensor-train)} steps to two v3 paths and one quantising path, and bytes-form round trips (SlabRouter::to_bytes/from_bytes, snapshot_bytes/restore_from_bytes into a new store and into a used store: the receiving store runs a generated fill program of its own first - any fill step kind, plus more steps on every slab the source has used: other tables/rows, graph-tensor edges of other types in other orders and deleted edges, blob chunks, embeddings and deleted entities - is built with or without a Bloom filter, and may be the store that received an earlier restore of the same program; every store-level program has at least one bytes-form step); the graph-tensor dump names, per edge id, endpoints, direction flag and type name; one in seven cases uses a bare SlabRouter with embedding_dim 8. Enumerate mode: a dry run loads every saved snapshot back and compares it with the live store (round-trip clause), then every mutating syscall boundary of every save (temp-file create/truncate, header write, body write, rename, and the point right after the rename) and sampled byte offsets inside every write are each taken as a process-crash point (inner_enumerated_points counts these executions), each followed by load, comparison with the complete previous and complete new snapshot, a second save over the leftover temp file, load, and the rest of the program on the loaded store. Chain mode: 1-2 seeded crashes in one execution. Non-trivial: at least one save/load pair was compared or a crash fired. Distinct: hash of (configuration, step-kind sequence, crash sites).".into()
     }
 
     fn components(&self) -> Value {
